@@ -78,7 +78,8 @@ fn confirm(rc: &RunCtx, ds: Vec<Disagreement>, per_sig: u32, checked: &mut u64, 
             continue;
         }
         *checked += 1;
-        let msgs = check_isolated(rc, &d.source, d.probe.as_deref(), &d.mp);
+        let expect_accept = d.expect_accept;
+        let msgs = check_isolated_contexts(rc, &d.source, d.probe.as_deref(), &d.mp, &|m: &[String]| m.is_empty() != expect_accept);
         if msgs.is_empty() == d.expect_accept {
             continue; // not reproduced in isolation: the batch verdict was an artefact
         }
